@@ -615,6 +615,7 @@ fn run_gen_thread(
     let strat = proptest::collection::vec(any::<u16>(), (tape_len * 3 / 4).max(1)..=tape_len);
     let counting = AtomicBool::new(true);
     let n_seen = AtomicU64::new(0);
+    let first_fail: Mutex<Option<Fail>> = Mutex::new(None);
     let res = runner.run(&strat, |tape_vec| {
         let mut tape = Tape::new(&tape_vec);
         let r = guarded(|| f(&mut tape, &w));
@@ -639,7 +640,9 @@ fn run_gen_thread(
                     Ok(())
                 } else {
                     counting.store(false, Ordering::Relaxed);
-                    Err(TestCaseError::fail(fail.signature))
+                    let sig = fail.signature.clone();
+                    first_fail.lock().unwrap().get_or_insert(fail);
+                    Err(TestCaseError::fail(sig))
                 }
             }
         }
@@ -649,7 +652,12 @@ fn run_gen_thread(
         Err(TestError::Fail(reason, found)) => {
             // reduce the failing tape (same signature must keep failing), then re-run it for the detail
             let sig = reason.message().to_string();
-            let (minimal, shrunk_fail) = shrink_tape(f, &w, found, &sig, known, prop_id, 600);
+            // a hang costs minutes per evaluation: keep the tape and the failure as found
+            let as_found = if sig.contains("hang") { first_fail.lock().unwrap().take().filter(|fl| fl.signature == sig) } else { None };
+            let (minimal, shrunk_fail) = match as_found {
+                Some(fl) => (found, Some(fl)),
+                None => shrink_tape(f, &w, found, &sig, known, prop_id, 600),
+            };
             let fail = match shrunk_fail {
                 Some(fl) => fl,
                 None => {
@@ -857,6 +865,8 @@ fn shrink_tape(
             break;
         }
     }
+    // a hang costs minutes per evaluation: the tape as found is the reproduction
+    let budget = if sig.contains("hang") { 0 } else { budget };
     let over = |evals: usize| evals >= budget || t_start.elapsed().as_secs() > 90;
     // 1. cut the tail (zeros are implied)
     while best.len() > 1 && !over(evals) {
